@@ -262,7 +262,25 @@ def p_matrix_sched_preempt_blocked(case, v):
     return x_matrix_sched_preempt_blocked(copy.deepcopy(case)) if isinstance(case, dict) and "nodes" in case else False
 
 
+def x_cc_preempt_after_restart(spec):
+    """F32: after a pre-emptive shift change interrupted customers are restarted before fresh ones whatever their priority, so at a node
+    that also has pre-emptive priorities better-priority customers can be left waiting; a later class change while waiting then lets the
+    *changing* customer pre-empt and start service ahead of earlier arrivals of its new class.  Excluded by dropping class changes while
+    waiting from networks with a node that has both pre-emptive priorities and a pre-emptive schedule."""
+    if any(nd.get("prio_preempt") and nd["servers"].get("preemption") for nd in spec["nodes"]) and any(c.get("cct") for c in spec["classes"]):
+        for c in spec["classes"]:
+            c.pop("cct", None)
+        return True
+    return False
+
+
+def p_cc_preempt_after_restart(case, v):
+    import copy
+    return x_cc_preempt_after_restart(copy.deepcopy(case)) if isinstance(case, dict) and "nodes" in case else False
+
+
 EXCLUSIONS = {
+    "cc_preempt_after_restart": x_cc_preempt_after_restart,
     "matrix_sched_preempt_blocked": x_matrix_sched_preempt_blocked,
     "sched_preempt_blocked_cc": x_sched_preempt_blocked_cc,
     "sched_reroute_blocked": x_sched_reroute_blocked,
